@@ -1,5 +1,7 @@
 import NavisModel.Proofs.NblastLemmas
+import NavisModel.Proofs.DpCacheLemmas
 import NavisModel.Gen.Smat
+import NavisModel.Gen.DpTree
 /-!
 # C06 — NBLAST scores equal the published definition
 
@@ -34,6 +36,30 @@ theorem source_modes_match_model : Gen.Smat.allowedScores = Mode.all.map Mode.na
 /-- Hence `Digitizer.__call__` *as written in the source* is the model's `digitize`. -/
 theorem digitize_source_eq_model : digitizeWith Gen.Smat.sideOfRight Gen.Smat.offset = digitize := by
   rw [source_side_matches_model, source_offset_matches_model]; rfl
+
+/-- `NBlaster.single_query_target` as written: the self-self short-cut compares the two POSITIONS in the
+blaster (never ids — what `scores_independent_of_ids` relies on), the score is normalised by the QUERY's
+self hit, the reverse score is the same function with the indices swapped in forward mode, and with alpha
+the dot products are multiplied by `sqrt(alpha product)`: the shape of the model's `forward` /
+`singleQueryTarget` / `matchArgs`. -/
+theorem source_single_query_target_matches_model :
+    Gen.Smat.shortcutOnPositions = true ∧ Gen.Smat.normalisesByQuery = true ∧
+    Gen.Smat.reverseSwapsIndices = true ∧ Gen.Smat.dotsScaledBySqrtAlpha = true := by decide
+
+/-- `Dotprops.dist_dots` as written: a query point without a neighbour inside `distance_upper_bound` gets
+distance = bound and dot product 0 on EVERY path that returns the dot products (the `alpha=False` path
+NBLAST takes without alpha included), and alpha product 0 — the model's `matchPoint`. -/
+theorem source_dist_dots_no_hit_matches_model :
+    Gen.Smat.nohitDistIsBound = true ∧ Gen.Smat.nohitDotZeroOnAllPaths = true ∧ Gen.Smat.nohitAlphaZero = true := by
+  decide
+
+/-- … which is what the model does: no neighbour inside the bound ⇒ `(bound², 0, 0, no hit)`. -/
+theorem matchPoint_no_hit (t : Cloud) (b : Rat) (hb : b ≠ 0) (qp : Pt) (j : Nat) (d : Rat)
+    (hn : nearest t qp.p = some (j, d)) (hfar : ¬ d < b * b) :
+    matchPoint t (some b) qp = some ⟨b * b, 0, 0, false, t.length⟩ := by
+  unfold matchPoint
+  rw [hn]
+  simp [effBound, hb, hfar]
 
 /-- Both shipped score matrices parse (labels abut, one closedness per axis, strictly increasing
 boundaries, cell matrix of the right shape). -/
@@ -415,5 +441,211 @@ example : (Gen.Smat.fcwbAlpha.bind fun tb => some ((witnessLine 0 1).all fun p =
                   decide ((7 : Int) ≤ digitize tb.ax1 (.sqrt (p.a * p.a)))
       | none => false)) = some true := by
   decide +kernel
+
+/-! ## 6. The cached kd-tree of a target always describes its current coordinates
+
+`Dotprops.dist_dots(other)` asks `other.kdtree`; the property caches the index in `_tree`.  The model
+(`Model/DpCache.lean`) tags the cached tree with the geometry it was built from; which code paths drop the
+tree is re-extracted from the source (`Gen/DpTree.lean`).  "Every query point is matched to its nearest
+target point" therefore holds along every history of operations on the same objects, not only for freshly
+built dotprops. -/
+section KdTree
+open Navis.DpCache
+
+/-- The `kdtree` property builds the index from `self.points` when `_tree` is missing / `None`, stores it
+in `_tree` and returns the stored object; `dist_dots` queries the target through that property. -/
+theorem source_kdtree_property :
+    Gen.DpTree.kdtreeBuildsFromPoints = true ∧ Gen.DpTree.kdtreeStores = true ∧
+    Gen.DpTree.kdtreeRebuildsWhenMissing = true ∧ Gen.DpTree.kdtreeReturnsCache = true ∧
+    Gen.DpTree.distDotsQueriesOtherKdtree = true := by decide
+
+/-- `copy()` does not carry `_tree` over, `__getstate__` drops a pykdtree index: copies and unpickled
+objects start without a tree (the model's `copy` / `pickle false` events). -/
+theorem source_copy_pickle_drop_tree :
+    Gen.DpTree.copyDropsTree = true ∧ Gen.DpTree.getstateDropsPykdtree = true := by decide
+
+/-- **In-place arithmetic and the `points` setter drop the cached tree** — as the source is written now:
+`__add__ / __sub__ / __mul__ / __truediv__` (what `+=`, `-=`, `*=`, `/=` and `convert_units` run with
+`copy=False`) and `points.setter`.  Replacing the `delattr(n, '_tree')` by something that does not remove
+`_tree` (e.g. `_clear_temp_attr()` while `_tree` is not in `TEMP_ATTR`) breaks this theorem. -/
+theorem source_arithmetic_invalidates :
+    ∀ m ∈ [Method.add, .sub, .mul, .truediv, .setPoints], Gen.DpTree.invalOpt m = some true := by decide
+
+/-- The functions known NOT to reset the tree after masking the arrays (open findings
+`downsample/stale-kdtree`, `subset/stale-kdtree`). -/
+def knownStaleWriters : List String :=
+  ["sampling.downsampling._downsample_dotprops", "morpho.subset._subset_dotprops"]
+
+/-- **Every function that writes Dotprops coordinates invalidates the cached tree** (through `delattr`,
+`_tree = None`, the `points` setter, a registered temporary attribute, or because it writes into a copy it
+has just made) — except the two known offenders.  A new writer that forgets the invalidation, or an
+existing one that loses it, makes this fail. -/
+theorem source_writers_invalidate :
+    ∀ w ∈ Gen.DpTree.writers, w.2.2.2.1 = true ∨ w.1 ∈ knownStaleWriters := by decide
+
+/-- The extraction did see the writers the model's events stand for. -/
+theorem source_writers_found :
+    ∀ n ∈ ["Dotprops.__add__", "Dotprops.__sub__", "Dotprops.__mul__", "Dotprops.__truediv__",
+           "Dotprops.points.setter"], n ∈ Gen.DpTree.writers.map (·.1) := by decide
+
+/-- **history_tree_fresh.** Along every history of kd-tree reads, tangent reads, in-place coordinate
+changes, copies and pickle round trips on any number of objects in which every in-place change goes through
+an invalidating code path, the invariant "no tree, or a tree built from the current coordinates" holds for
+every object at the end, and every single kd-tree query was answered by a tree of the then-current
+geometry. -/
+theorem history_tree_fresh {G : Type} (inv : Method → Bool) (evs : List (Ev G)) (s : List (Obj G))
+    (hs : ∀ o ∈ s, o.Fresh) (hsafe : safe inv evs = true) :
+    (∀ o ∈ (run inv s evs).1, o.Fresh) ∧ ∀ p ∈ (run inv s evs).2, p.1 = p.2 :=
+  run_fresh inv evs s hs hsafe
+
+/-- Histories whose in-place changes are arithmetic (`+= -= *= /=`, unit conversion) or `points = …`. -/
+def arithOnly {G : Type} (evs : List (Ev G)) : Bool :=
+  evs.all fun e => match e with
+    | .mutate m _ _ => decide (m ∈ [Method.add, .sub, .mul, .truediv, .setPoints])
+    | _ => true
+
+theorem safe_of_arithOnly {G : Type} (evs : List (Ev G)) (h : arithOnly evs = true) :
+    safe Gen.DpTree.inval evs = true := by
+  unfold arithOnly at h
+  unfold safe
+  rw [List.all_eq_true] at h ⊢
+  intro e he
+  have := h e he
+  cases e with
+  | mutate m i g =>
+    simp only [decide_eq_true_eq] at this
+    have := source_arithmetic_invalidates m this
+    simp [Gen.DpTree.inval, this]
+  | _ => rfl
+
+/-- **The same for navis as the source is written now**: whatever mixture of NBLAST calls (tree reads),
+lazy tangent computations, in-place arithmetic, `points` assignments, copies (= out-of-place arithmetic,
+`downsample(inplace=False)` on eager dotprops, …) and pickle round trips — the tree a query uses is always
+one of the current coordinates. -/
+theorem history_tree_fresh_source {G : Type} (evs : List (Ev G)) (s : List (Obj G))
+    (hs : ∀ o ∈ s, o.Fresh) (h : arithOnly evs = true) :
+    (∀ o ∈ (run Gen.DpTree.inval s evs).1, o.Fresh) ∧ ∀ p ∈ (run Gen.DpTree.inval s evs).2, p.1 = p.2 :=
+  run_fresh _ evs s hs (safe_of_arithOnly evs h)
+
+/-- A freshly constructed object (no tree) satisfies the invariant. -/
+theorem new_object_fresh {G : Type} (g : G) (l : Bool) : (⟨g, none, l⟩ : Obj G).Fresh := Or.inl rfl
+
+/-- **dist_dots through a fresh tree is the definition's match**: index / distance from the tree, tangent
+and alpha from the current arrays — when the tree was built from the current positions this is
+`matchPoint`, for every query point, bound and cloud. -/
+theorem dist_dots_via_fresh_tree (cur : Cloud) (bound : Option Rat) (qp : Pt) :
+    matchPointVia (cur.map (·.p)) cur bound qp = matchPoint cur bound qp :=
+  matchPointVia_fresh cur bound qp
+
+/-- **Scores along a history equal the definition on the current state.**  For every tree query logged by a
+safe history (geometry = list of positions), scoring any query cloud against the target's *current* cloud
+through the tree that answered is the definition's forward raw score on the current cloud. -/
+theorem history_target_score_is_definition (inv : Method → Bool) (evs : List (Ev (List V3)))
+    (s : List (Obj (List V3))) (hs : ∀ o ∈ s, o.Fresh) (hsafe : safe inv evs = true)
+    (p : List V3 × List V3) (hp : p ∈ (run inv s evs).2)
+    (fn : ScoreFn) (cfg : Cfg) (q cur : Cloud) (hcur : cur.map (·.p) = p.2) :
+    pairRawVia fn cfg q p.1 cur = pairRaw fn cfg q cur := by
+  have := (run_fresh inv evs s hs hsafe).2 p hp
+  rw [this, ← hcur]
+  exact pairRawVia_fresh fn cfg q cur
+
+/-- **What the two known offenders do** (conditional on the extracted flag, so that a repaired navis does
+not break the build): an object that has been a target, then `downsample(inplace=True)`, then a target
+again, is queried through the tree of its OLD coordinates … -/
+theorem stale_tree_after_downsample (inv : Method → Bool) (h : inv .downsample = false) :
+    (run inv [(⟨0, none, false⟩ : Obj Nat)] [.use 0, .mutate .downsample 0 1, .use 0]).2 = [(0, 0), (0, 1)] := by
+  simp [run, step, upd, Obj.mutate, Obj.ensure, Obj.used, Method.needsTangents, h]
+
+/-- … and with lazy tangents a single `downsample` (in place or on the copy `downsample(inplace=False)` /
+`nblast_smart` make) is enough, because `_downsample_dotprops` computes the tangents — and with them the
+tree — right before it masks the points. -/
+theorem stale_tree_after_lazy_downsample (inv : Method → Bool) (h : inv .downsample = false) :
+    (run inv [(⟨0, none, true⟩ : Obj Nat)] [.mutate .downsample 0 1, .use 0]).2 = [(0, 0), (0, 1)] := by
+  simp [run, step, upd, Obj.mutate, Obj.ensure, Obj.resolve, Obj.used, Method.needsTangents, h]
+
+/-- The consequence for `dist_dots` (concrete): a tree of three old positions with one current point —
+the query next to old point 2 gets index 2, `other.vect[2]` does not exist (IndexError); the query next to
+old point 0 silently gets a wrong distance. -/
+example :
+    matchPointVia [⟨0, 0, 0⟩, ⟨5, 0, 0⟩, ⟨9, 0, 0⟩] [⟨⟨9, 0, 0⟩, ⟨1, 0, 0⟩, 1⟩] none ⟨⟨8, 0, 0⟩, ⟨1, 0, 0⟩, 1⟩ = none ∧
+    (matchPointVia [⟨0, 0, 0⟩, ⟨5, 0, 0⟩, ⟨9, 0, 0⟩] [⟨⟨9, 0, 0⟩, ⟨1, 0, 0⟩, 1⟩] none ⟨⟨1, 0, 0⟩, ⟨1, 0, 0⟩, 1⟩).map (·.d2) = some 1 ∧
+    (matchPoint [⟨⟨9, 0, 0⟩, ⟨1, 0, 0⟩, 1⟩] none ⟨⟨1, 0, 0⟩, ⟨1, 0, 0⟩, 1⟩).map (·.d2) = some 64 := by
+  decide +kernel
+
+/-- non-vacuity: an arithmetic-only history with reads in between is `arithOnly`, and its log is fresh -/
+example : arithOnly ([.use 0, .mutate .add 0 1, .use 0, .copy 0, .mutate .mul 1 2, .use 1, .pickle false 0, .use 2] : List (Ev Nat)) = true ∧
+    (run Gen.DpTree.inval [(⟨0, none, false⟩ : Obj Nat)]
+      [.use 0, .mutate .add 0 1, .use 0, .copy 0, .mutate .mul 1 2, .use 1, .pickle false 0, .use 2]).2 =
+      [(0, 0), (1, 1), (2, 2), (1, 1)] := by
+  decide
+
+end KdTree
+
+/-! ## 7. Self score with coincident points -/
+section Dup
+open Navis.DpCache
+
+/-- **self_score_one_dup.** `self_score_one` does not need pairwise distinct positions: it is enough that
+points sharing a position carry the same tangent up to sign and the same alpha (then whichever of them the
+nearest-neighbour search returns, the matched pair scores like the point with itself).  Unit tangents and
+distinct positions are the special case `consistentDup_of_nodup`. -/
+theorem self_score_one_dup (fn : ScoreFn) (cfg : Cfg) (c : Cloud) (hn : cfg.normalized = true)
+    (hc : ConsistentDup c) (sh : Rat) (hsh : selfHit fn cfg.useAlpha c = some sh) (hne : sh ≠ 0) :
+    defForward fn cfg c c = some 1 := by
+  unfold defForward
+  rw [pairRaw_self_dup_eq_selfHit fn cfg c hc sh hsh, hsh]
+  simp [hn, normalise, hne]
+
+/-- … and raw: the self hit. -/
+theorem self_score_raw_dup (fn : ScoreFn) (cfg : Cfg) (c : Cloud) (hn : cfg.normalized = false)
+    (hc : ConsistentDup c) (sh : Rat) (hsh : selfHit fn cfg.useAlpha c = some sh) :
+    defForward fn cfg c c = some sh := by
+  unfold defForward
+  rw [pairRaw_self_dup_eq_selfHit fn cfg c hc sh hsh]
+  simp [hn]
+
+/-- The guard is needed: two coincident points with orthogonal tangents, scored against itself through the
+nearest-neighbour search, do NOT reach the self hit (the first point is matched to itself, the second one
+to the first) — the score depends on which of the coincident points the kd-tree returns, so only the
+`q_idx == t_idx` short-cut gives exactly 1 there. -/
+example : (Gen.Smat.fcwb.bind fun tb => defForward tb.call ⟨false, true, none⟩
+      [⟨⟨0, 0, 0⟩, ⟨1, 0, 0⟩, 1⟩, ⟨⟨0, 0, 0⟩, ⟨0, 1, 0⟩, 1⟩]
+      [⟨⟨0, 0, 0⟩, ⟨1, 0, 0⟩, 1⟩, ⟨⟨0, 0, 0⟩, ⟨0, 1, 0⟩, 1⟩]).map (decide <| · < 1) = some true := by
+  decide +kernel
+
+/-- non-vacuity of `ConsistentDup` with a genuine duplicate (antiparallel tangents) -/
+example : ConsistentDup [⟨⟨0, 0, 0⟩, ⟨1, 0, 0⟩, 1/2⟩, ⟨⟨0, 0, 0⟩, ⟨-1, 0, 0⟩, 1/2⟩, ⟨⟨1, 0, 0⟩, ⟨0, 1, 0⟩, 1⟩] := by
+  unfold ConsistentDup; decide +kernel
+
+end Dup
+
+/-! ## 8. `nblast_smart`: which definition each cell equals -/
+section Smart
+open Navis.DpCache
+
+/-- The pre-NBLAST clouds: `downsample(10)` keeps the points `0, f, 2f, …` — `ceil(n / f)` of them —
+with their tangents and alphas (clouds of at most `f` points are left alone). -/
+theorem downsample_simple_spec (f : Nat) (c : Cloud) (hf : 0 < f) (h : f < c.length) :
+    (downsampleSimple f c).length = (c.length + f - 1) / f ∧
+    ∀ i < (c.length + f - 1) / f, (downsampleSimple f c)[i]? = c[i * f]? :=
+  ⟨downsampleSimple_length f c hf h, fun i hi => downsampleSimple_get f c hf h i hi⟩
+
+/-- A cell the mask selects is the score of the full NBLAST definition, in every mode … -/
+theorem smart_refined_cell (fn : ScoreFn) (cfg : Cfg) (mode : Mode) (q t : Cloud) :
+    smartCell fn cfg mode true q t = defScore fn cfg q t mode := by
+  simp [smartCell]
+
+/-- … so a threshold every pair passes makes `nblast_smart` the plain NBLAST; and for clouds of at most 10
+points the pre-NBLAST *is* the full NBLAST, whatever the mask. -/
+theorem smart_small_clouds (fn : ScoreFn) (cfg : Cfg) (mode : Mode) (sel : Bool) (q t : Cloud)
+    (hq : q.length ≤ 10) (ht : t.length ≤ 10) : smartCell fn cfg mode sel q t = defScore fn cfg q t mode := by
+  unfold smartCell
+  rw [downsampleSimple_small 10 q hq, downsampleSimple_small 10 t ht]
+  cases sel <;> rfl
+
+example : (downsampleSimple 10 ((List.range 25).map fun (i : Nat) => (⟨⟨(i : Rat), 0, 0⟩, ⟨1, 0, 0⟩, 1⟩ : Pt))).map (·.p.x) = [0, 10, 20] := by
+  decide +kernel
+
+end Smart
 
 end Navis.Props.C06
